@@ -48,7 +48,7 @@ _BEFORE_PARSE = {'preproc_fail', 'preproc_nonexec', 'preproc_killed', 'preproc_e
 
 def cases(tier, seed):
     rng = common.rng_for(seed, ID)
-    n_extra = 1 if tier == 'quick' else 8
+    n_extra = 3 if tier == 'quick' else 8
     for ending, status, mode in itertools.product(ENDINGS, STATUSES, MODES):
         rcs = []
         # deterministic: rotate through the core list so that every core rc meets every mode & several scenarios
